@@ -1,4 +1,5 @@
 import Splipy.Lemmas.C13Bezier
+import Mathlib.Data.List.GetD
 import Splipy.Lemmas.C13Arc
 
 /-!
@@ -155,6 +156,56 @@ theorem bern4_negA (a b u : K) : (bern4 0 (-a) (-b) (-1) (-1) u) ^ 2 = (bern4 0 
 omit [LinearOrder K] [IsStrictOrderedRing K] in
 theorem bern4_negB (a b u : K) : (bern4 (-1) (-1) (-b) (-a) 0 u) ^ 2 = (bern4 1 1 b a 0 u) ^ 2 := by
   unfold bern4; ring
+
+
+/-- knot `i` of `circle_segment` for `θ < 0` (`np.flip(knot)`): `arcKnotFn` read backwards. -/
+def arcKnotRev (theta : K) (n i : ℕ) : K := arcKnotFn theta n (2 * n + 3 - i)
+
+theorem arcKnotRev_mono (theta : K) (n : ℕ) (hn : 0 < n) (hθ : theta < 0) : Monotone (arcKnotRev theta n) := by
+  intro i j hij
+  unfold arcKnotRev arcKnotFn
+  have h1 : min n ((2 * n + 3 - j - 1) / 2) ≤ min n ((2 * n + 3 - i - 1) / 2) :=
+    min_le_min_left n (Nat.div_le_div_right (by omega))
+  have hc : ((min n ((2 * n + 3 - j - 1) / 2) : ℕ) : K) ≤ ((min n ((2 * n + 3 - i - 1) / 2) : ℕ) : K) := by
+    exact_mod_cast h1
+  have hn' : (0 : K) < n := by exact_mod_cast hn
+  have := div_le_div_of_nonneg_right hc (le_of_lt hn')
+  nlinarith
+
+theorem kn_arc_rev (theta : K) (n i : ℕ) (hi : i < 2 * n + 4) :
+    ({ order := 3, knots := (arcKnots theta n).reverse.toArray, periodic := -1 } : Basis K).kn i
+      = arcKnotRev theta n i := by
+  have hlen : (arcKnots theta n).length = 2 * n + 4 := by simp [arcKnots, arcInts_eq]
+  have hg : ∀ j, j < 2 * n + 4 → (arcKnots theta n).getD j 0 = arcKnotFn theta n j := by
+    intro j hj
+    simp [arcKnots, arcInts_eq, arcKnotFn, hj]
+  unfold Basis.kn arcKnotRev
+  simp only [List.size_toArray, List.length_reverse, hlen]
+  rw [← hg (2 * n + 3 - i) (by omega)]
+  have hi' : i < (arcKnots theta n).reverse.length := by rw [List.length_reverse, hlen]; exact hi
+  have hj' : 2 * n + 3 - i < (arcKnots theta n).length := by rw [hlen]; omega
+  rw [Array.getD_eq_getD_getElem?, List.getElem?_toArray, List.getElem?_eq_getElem hi', Option.getD_some,
+    List.getElem_reverse, List.getD_eq_getElem _ _ hj']
+  congr 1
+  rw [hlen]; omega
+
+omit [LinearOrder K] [IsStrictOrderedRing K] in
+theorem netComp_arc_rev (r cd sd : K) (n i : ℕ) (hi : i < 2 * n + 1) :
+    netComp (arcNet r cd sd n).reverse 0 i = arcX r cd sd (2 * n - i) ∧
+    netComp (arcNet r cd sd n).reverse 1 i = arcY r cd sd (2 * n - i) ∧
+    netComp (arcNet r cd sd n).reverse 2 i = arcW cd (2 * n - i) := by
+  have h := arcNet_getElem? r cd sd n (2 * n - i) (by omega)
+  have hl := arcNet_length r cd sd n
+  have hg : (arcNet r cd sd n).reverse.getD i [] = [arcX r cd sd (2 * n - i), arcY r cd sd (2 * n - i), arcW cd (2 * n - i)] := by
+    rw [List.getD_eq_getElem?_getD, List.getElem?_reverse (by rw [hl]; exact hi), hl]
+    have : 2 * n + 1 - 1 - i = 2 * n - i := by omega
+    rw [this, h]; rfl
+  simp only [netComp, List.length_reverse, hl, Nat.mod_eq_of_lt hi, hg]
+  simp
+
+omit [LinearOrder K] [IsStrictOrderedRing K] in
+theorem bern2_rev (p0 p1 p2 u : K) : bern2 p2 p1 p0 u = bern2 p0 p1 p2 (1 - u) := by
+  unfold bern2; ring
 
 
 end Splipy.Fac
